@@ -211,6 +211,24 @@ def _col(x):
     return np.arange(1, len(x) + 1)[:, None]
 
 
+def _fcol(x):
+    """a float column with values on which only an exact (bit-pattern) broadcast is row-independent"""
+    base = [float("inf"), 1.0, 1e17, -2.5, 0.7, float("-inf"), 3.0, 0.1]
+    return np.array([base[i % 8] for i in range(len(x))], dtype=np.float64)[:, None]
+
+
+def _mismatch(x):
+    """a ragged operand with the same number of rows and cells but other row lengths (None if impossible)"""
+    from npstructures import RaggedArray
+    lens = [int(l) for l in x.lengths]
+    j = next((i for i, l in enumerate(lens) if l > 0), None)
+    if j is None or len(lens) < 2:
+        raise ValueError("no mismatching shape exists")
+    lens[j] -= 1
+    lens[(j + 1) % len(lens)] += 1
+    return RaggedArray(np.arange(sum(lens)), lens)
+
+
 def _indep_mask(x):
     """a boolean ragged mask built WITHOUT touching x's data (only its row lengths)"""
     from npstructures import RaggedArray
@@ -235,7 +253,8 @@ READ_PROBES = [
     ("ragged_slice-ends", lambda x: __import__("npstructures").ragged_slice(x, ends=np.full(len(x), -1))),
     ("x[...]", lambda x: x[...]), ("x[()]", lambda x: x[()]), ("x[...][::-1]", lambda x: x[...][::-1]),
     ("x+1", lambda x: x + 1), ("x*col", lambda x: x * _col(x)), ("col-x", lambda x: _col(x) - x),
-    ("x+x", lambda x: x + x), ("x>2", lambda x: x > 2),
+    ("x+x", lambda x: x + x), ("x*fcol", lambda x: x * _fcol(x)), ("fcol-x", lambda x: _fcol(x) - x), ("x+mismatch", lambda x: x + _mismatch(x)),
+    ("(x+1)+mismatch", lambda x: (x + 1) + _mismatch(x)), ("(x+1)*fcol", lambda x: (x + 1) * _fcol(x)), ("x>2", lambda x: x > 2),
     ("sum-1", lambda x: x.sum(axis=-1)), ("sum0", lambda x: x.sum(axis=0)),
     ("np.sum0", lambda x: np.sum(x, axis=0)), ("sumNone", lambda x: x.sum()), ("max-1", lambda x: x.max(axis=-1)),
     ("mean-1", lambda x: x.mean(axis=-1)), ("mean0", lambda x: x.mean(axis=0)),
